@@ -811,10 +811,17 @@ impl Monitor for C03 {
                                 let n = rng.usize(7);
                                 *digits = (0..n)
                                     .map(|i| {
+                                        if rng.chance(1, 12) {
+                                            // characters that are "digits" or "numeric" for Unicode but not for BTOR2
+                                            return *rng.pick(&['\u{663}', '\u{ff13}', '\u{b2}', '\u{2167}', '\u{96b}', '\u{7c3}', '\u{1d7d7}', 'é']);
+                                        }
                                         let a: &[u8] = if i == 0 { b"-019afAFgx" } else { b"0123456789abcdefABCDEFgx-" };
                                         *rng.pick(a) as char
                                     })
                                     .collect();
+                                if !digits.is_ascii() {
+                                    rep.inc("btor_const_candidates_with_non_ascii_characters");
+                                }
                             }
                         }
                     }
